@@ -121,6 +121,10 @@ func runWritev(r *vh.Rng) (string, string) {
 }
 
 func execWritev(r *vh.Rng, sc wvScenario) (string, error) {
+	sizes := make([]int, 64) // the peer's read sizes
+	for i := range sizes {
+		sizes[i] = 1 + r.Intn(9000)
+	}
 	cli, srv, err := tcpPair()
 	if err != nil {
 		return "", fmt.Errorf("%w: %v", errNoLoopback, err)
@@ -138,10 +142,6 @@ func execWritev(r *vh.Rng, sc wvScenario) (string, error) {
 	var wire []byte
 	resume := make(chan struct{})
 	eof := make(chan error, 1)
-	sizes := make([]int, 64)
-	for i := range sizes {
-		sizes[i] = 1 + r.Intn(9000)
-	}
 	go func() {
 		buf := make([]byte, 1<<16)
 		for k := 0; ; k++ {
